@@ -58,3 +58,61 @@ Proof. vm_compute. reflexivity. Qed.
 
 Theorem ctx_fields_present : existsb (String.eqb "vars") ctx_fields && existsb (String.eqb "Err") ctx_fields = true.
 Proof. vm_compute. reflexivity. Qed.
+
+(* ---- C05: what the hand-written classification says Reset does, Reset's source does ---- *)
+Definition mem (x : string) (l : list string) : bool := existsb (String.eqb x) l.
+
+Definition touched (f : string) : bool := mem f reset_touched || mem (f ++ ".Reset()") reset_touched.
+
+(* grow-only stores whose logical length is a separate field: Reset zeroes the length and
+   clears what a recycled element could still show *)
+Definition governed : list (string * list string) :=
+  [("vars", ["ln"; "vars[].val"; "vars[].buf"; "vars[].cntrF"]);
+   ("w", ["wl"; "w[].Reset()"]);
+   ("kv", ["kvl"]);
+   ("ipv", ["ipvl"; "ipv[].key"; "ipv[].val"])].
+
+Definition truncated (f : string) : bool :=
+  touched f ||
+  match find (fun p => String.eqb (fst p) f) governed with
+  | Some p => forallb (fun x => mem x reset_touched) (snd p)
+  | None => false
+  end.
+
+Theorem reset_touches_cleared : forallb touched reset_cleared = true.
+Proof. vm_compute. reflexivity. Qed.
+
+Theorem reset_truncates_stores : forallb truncated grow_only_truncated = true.
+Proof. vm_compute. reflexivity. Qed.
+
+(* ---- C05 / C15: a variable slot shows exactly one representation after every setter ----
+   A slot has three representations (inspected value, byte buffer, counter); which one is live is
+   decided by val / buf / cntrF.  A block that updates an existing variable (index i) must assign
+   all three; a block that recycles a slot beyond the logical length (index ctx.ln) may rely on
+   Reset for the ones it does not assign. *)
+Definition repr_fields : list string := ["val"; "buf"; "cntrF"].
+Definition reset_slot (f : string) : bool := mem ("vars[]." ++ f) reset_touched.
+
+Definition block_ok (b : string * string * list string) : bool :=
+  let '(fn, idx, fs) := b in
+  (negb (String.eqb idx "i") || forallb (fun f => mem f fs) ("ins" :: repr_fields)) &&
+  (negb (String.eqb idx "ctx.ln") ||
+   (mem "key" fs && mem "ins" fs && forallb (fun f => mem f fs || reset_slot f) repr_fields)) &&
+  (negb (String.eqb fn "SetCounter") || (mem "cntr" fs && mem "cntrF" fs)).
+
+Theorem setters_leave_one_representation : forallb block_ok slot_blocks = true.
+Proof. vm_compute. reflexivity. Qed.
+
+(* non-vacuity: both kinds of block of all three setters were found, and ctxVar has no field the
+   argument above does not know *)
+Definition has_block (fn idx : string) : bool :=
+  existsb (fun b => let '(f, i, _) := b in String.eqb f fn && String.eqb i idx) slot_blocks.
+
+Theorem slot_blocks_present :
+  forallb (fun fn => has_block fn "i" && has_block fn "ctx.ln") ["Set"; "SetBytes"; "SetCounter"] = true.
+Proof. vm_compute. reflexivity. Qed.
+
+Theorem ctxvar_fields_known :
+  forallb (fun f => mem f ["key"; "val"; "buf"; "cntrF"; "cntr"; "ins"]) ctxvar_fields &&
+  forallb (fun f => mem f ctxvar_fields) ("key" :: "ins" :: "cntr" :: repr_fields) = true.
+Proof. vm_compute. reflexivity. Qed.
